@@ -61,7 +61,34 @@ pub fn source_objects_shaped(resources: usize, extras: usize, shape: usize) -> V
     };
     // third page: uses the shared font and image again, plus its own ext-gstate name
     o.push((39, Val::dict(vec![("Type", Val::name("Page")), ("Parent", Val::r(2)), ("Contents", Val::r(51)), ("MediaBox", Val::ints(&[0, 0, 300, 400])), ("Rotate", Val::Int(180))])));
-    o.push((51, Val::stream(vec![], b"BT /F1 9 Tf (third) Tj ET q 2 0 0 2 0 0 cm /Im1 Do Q /GS1 gs /Fm1 Do\n".to_vec())));
+    o.push((51, Val::stream(vec![], b"BT /F1 9 Tf (third) Tj ET q 2 0 0 2 0 0 cm /Im1 Do Q /GS1 gs /Fm1 Do /ImLzw Do\n".to_vec())));
+    // an image whose filter parameters matter although there is no predictor: LZW with /EarlyChange 0, enough data for
+    // the code width to change (a copy that loses the parameter decodes to something else or not at all)
+    {
+        let mut x = 12345u32;
+        let samples: Vec<u8> = (0..1024)
+            .map(|_| {
+                x = x.wrapping_mul(1664525).wrapping_add(1013904223);
+                (x >> 24) as u8
+            })
+            .collect();
+        o.push((
+            56,
+            Val::stream(
+                vec![("Type", Val::name("XObject")), ("Subtype", Val::name("Image")), ("Width", Val::Int(64)), ("Height", Val::Int(16)), ("ColorSpace", Val::name("DeviceGray")), ("BitsPerComponent", Val::Int(8)), ("Filter", Val::name("LZWDecode")), ("DecodeParms", Val::dict(vec![("EarlyChange", Val::Int(0))]))],
+                crate::pdfgen::filters::lzw_encode(&samples, false, 0),
+            ),
+        ));
+        // (with the shapes that store the category dictionaries as objects of their own, /XObject is a reference)
+        let xo_val = o.iter().find(|(n, _)| *n == 5).unwrap().1.get("XObject").unwrap().clone();
+        match xo_val {
+            Val::Ref(nr, _) => o.iter_mut().find(|(n, _)| *n == nr).unwrap().1.set("ImLzw", Val::r(56)),
+            mut xo => {
+                xo.set("ImLzw", Val::r(56));
+                o.iter_mut().find(|(n, _)| *n == 5).unwrap().1.set("XObject", xo);
+            }
+        }
+    }
     set(&mut o, 2, "Kids", Val::Array(vec![Val::r(3), Val::r(4), Val::r(39)]));
     set(&mut o, 2, "Count", Val::Int(3));
     // a crop box inherited from the page tree (pages 4 and 39 have none of their own), except in the
@@ -496,7 +523,15 @@ pub fn worker_main() {
                     Ok(v) => v,
                     Err(_) => break,
                 };
-                let (bytes, pw) = case_source(&v);
+                // a failure while the harness builds the source document is a fault of the harness, not of the library
+                let (bytes, pw) = match catch(|| case_source(&v)) {
+                    Ok(x) => x,
+                    Err((loc, msg)) => {
+                        let _ = writeln!(out, "{}", json!({"machinery": format!("building the source document panicked at {}: {}", loc, msg)}));
+                        let _ = out.flush();
+                        continue;
+                    }
+                };
                 let sel: Vec<u32> = v["selection"].as_array().unwrap().iter().map(|x| x.as_u64().unwrap() as u32).collect();
                 let su = v["source_use"].as_u64().unwrap_or(0) as usize;
                 let r = catch(|| run_case(&bytes, &pw, &sel, su));
@@ -553,6 +588,9 @@ impl Worker {
         match self.stdout.read_line(&mut line) {
             Ok(n) if n > 0 => {
                 let v: Value = serde_json::from_str(&line).map_err(|e| vec![("machinery".to_string(), e.to_string())])?;
+                if let Some(m) = v["machinery"].as_str() {
+                    panic!("C20 machinery failure (no verdict): {}", m);
+                }
                 if let Some(c) = v["ok"].as_str() {
                     Ok(c.to_string())
                 } else if let Some(fs) = v["fails"].as_array() {
